@@ -66,6 +66,10 @@ pub fn gen_model(rng: &mut Rng, enc: Enc, max_notes: usize) -> Vec<NoteModel> {
                 let l = rng.usize_below(41);
                 NoteModel { n_type: [1u32, 3][rng.usize_below(2)], name: name.to_vec(), desc: rng.bytes(l) }
             }
+            5 if rng.chance(1, 2) => {
+                // the all-zero record (no name, no descriptor, type 0): 12 zero bytes are a well-formed note
+                NoteModel { n_type: 0, name: Vec::new(), desc: Vec::new() }
+            }
             4 => {
                 // vendor names that really occur (and the string literals of the crate's code), types from the exported
                 // NT_ constants, those the code mentions, small integers or anything
@@ -97,6 +101,11 @@ pub fn gen_model(rng: &mut Rng, enc: Enc, max_notes: usize) -> Vec<NoteModel> {
             }
         };
         v.push(n);
+    }
+    if !v.is_empty() && rng.chance(1, 8) {
+        for _ in 0..1 + rng.usize_below(2) {
+            v.push(NoteModel { n_type: 0, name: Vec::new(), desc: Vec::new() });
+        }
     }
     v
 }
